@@ -1,38 +1,83 @@
 """C15 - every quadrature rule is exact to its nominal degree (exhaustive over the API's rules)."""
 import itertools
+import os
 
 import numpy as np
 
 import darsia
-from vf.runner import Outcome, Prop, Sub, Violation
+from vf.runner import HarnessError, Outcome, Prop, Sub, Violation
 
 Q = darsia.quadrature
 
-# every (dim, order) the API documents / accepts; anything else must raise NotImplementedError
+# every (dim, order) the API documents; these must be offered.  Which *other* pairs are offered
+# is discovered by probing (see ``check_probe``): a pair is either rejected with
+# NotImplementedError or it is a rule and then has to obey every law of the property.
 ACCEPTED = {1: [0, 1, 2, 3, 4, "max"], 2: [0, 1, 2, 3, "max"], 3: [0, 1, 2, "max"]}
-MAX = {1: 4, 2: 3, 3: 2}
-REJECTED = {1: [5, 6, -1], 2: [4, 5, -1], 3: [3, 4, -1]}
+_MAX_DOC = {1: 4, 2: 3, 3: 2}  # only a fall-back for naming kinds
+
+
+def _max_order(dim):
+    """The highest integer order the API offers for ``dim`` (orders are offered consecutively
+    from 0): what the symbolic order 'max' stands for.  -1 if the dimension is not offered."""
+    k = -1
+    while k < 40:
+        try:
+            Q.gauss(dim, k + 1)
+        except NotImplementedError:
+            break
+        k += 1
+    return k
 
 
 def _npts(dim, order):
-    return (MAX[dim] if order == "max" else order) + 1
+    return (_max_order(dim) if isinstance(order, str) else int(order)) + 1
+
+
+def _call(fn, dim, order=None, form="int"):
+    """One public call, in one of the call forms callers use: positional python ints,
+    positional numpy integers (dimensions / orders taken from arrays), keywords."""
+    f = getattr(Q, fn)
+    d, o = dim, order
+    if form == "np":
+        d = np.int64(dim)
+        o = order if isinstance(order, str) or order is None else np.int64(order)
+    if fn == "reference_cell_corners":
+        return f(dim=d) if form == "kw" else f(d)
+    return f(dim=d, order=o) if form == "kw" else f(d, o)
+
+
+def _unpack(ret, t):
+    """The documented return value: a pair of numpy arrays (points, weights)."""
+    try:
+        pts, w = ret
+    except (TypeError, ValueError):
+        raise V("container", f"return value is not a (points, weights) pair: {type(ret).__name__}", t)
+    if not (isinstance(pts, np.ndarray) and isinstance(w, np.ndarray)):
+        raise V("container", f"points / weights are {type(pts).__name__} / {type(w).__name__}, "
+                "documented: numpy arrays", t)
+    return pts, w
+
+
+def _normal(pts, w, dim):
+    pts = np.asarray(pts, dtype=float)
+    w = np.asarray(w, dtype=float)
+    if pts.ndim == 1 and dim == 1:
+        pts = pts.reshape(-1, 1)
+    return pts, w
 
 
 def _rule(case):
     dim, order, cell = case["dim"], case["order"], case["cell"]
     if cell == "sym":
-        pts, w = Q.gauss(dim, order)
+        ret = Q.gauss(dim, order)
         lo, hi = -1.0, 1.0
     elif cell == "unit":
-        pts, w = Q.gauss_reference_cell(dim, order)
+        ret = Q.gauss_reference_cell(dim, order)
         lo, hi = 0.0, 1.0
     else:
-        pts, w = Q.reference_cell_corners(dim)
+        ret = Q.reference_cell_corners(dim)
         lo, hi = 0.0, 1.0
-    pts = np.asarray(pts, dtype=float)
-    w = np.asarray(w, dtype=float)
-    if pts.ndim == 1 and dim == 1:
-        pts = pts.reshape(-1, 1)
+    pts, w = _normal(*_unpack(ret, _tags(case)), dim)
     return pts, w, lo, hi
 
 
@@ -40,12 +85,24 @@ def _tags(case):
     return {"dim": case["dim"], "order": case["order"], "cell": case["cell"]}
 
 
+def _labels(case):
+    dim, order, cell = case["dim"], case["order"], case["cell"]
+    out = [f"dim{dim}", f"cell:{cell}"]
+    if cell != "corners":
+        out.append("order:max" if order == "max" else f"order:{order}")
+    return tuple(out)
+
+
 class V(Violation):
     """Violation whose kind names the rule: each table is its own root cause."""
 
     def __init__(self, kind, message, tags):
         d, o = tags.get("dim"), tags.get("order")
-        o = {"max": MAX.get(d)}.get(o, o)
+        if o == "max":
+            try:
+                o = _max_order(d)
+            except Exception:  # naming only; never let the name hide the violation
+                o = _MAX_DOC.get(d)
         super().__init__(f"{kind}:dim{d}-order{o}", message, tags)
 
 
@@ -82,7 +139,7 @@ def check_shape(case):
         raise V("outside", "points outside the cell", t)
     if len({tuple(np.round(p, 12)) for p in pts}) != len(pts):
         raise V("duplicate", "duplicate points", t)
-    return Outcome(nontrivial=len(pts) > 1, key=t)
+    return Outcome(nontrivial=len(pts) > 1, key=t, labels=_labels(case))
 
 
 def check_positive_sum(case):
@@ -93,7 +150,19 @@ def check_positive_sum(case):
     meas = (hi - lo) ** case["dim"]
     if abs(w.sum() - meas) > 1e-13 * meas:
         raise V("sum", f"weights sum to {w.sum()!r}, measure {meas}", t)
-    return Outcome(nontrivial=len(w) > 1, key=t)
+    return Outcome(nontrivial=len(w) > 1, key=t, labels=_labels(case))
+
+
+def _worst_monomial(pts, w, dim, deg, lo, hi):
+    worst = (0.0, None)
+    n = 0
+    for e in itertools.product(range(deg + 1), repeat=dim):
+        n += 1
+        val = float(np.sum(w * np.prod(pts ** np.array(e), axis=1)))
+        err = abs(val - _mono_exact(e, lo, hi))
+        if err > worst[0]:
+            worst = (err, e)
+    return worst, n
 
 
 def check_exact(case):
@@ -104,18 +173,10 @@ def check_exact(case):
     if len(w) != len(pts):
         raise V("count", f"{len(pts)} points but {len(w)} weights", t)
     deg = 1 if case["cell"] == "corners" else 2 * _npts(dim, case["order"]) - 1
-    worst = (0.0, None)
-    n = 0
-    for e in itertools.product(range(deg + 1), repeat=dim):
-        n += 1
-        val = float(np.sum(w * np.prod(pts ** np.array(e), axis=1)))
-        ex = _mono_exact(e, lo, hi)
-        err = abs(val - ex)
-        if err > worst[0]:
-            worst = (err, e)
+    worst, n = _worst_monomial(pts, w, dim, deg, lo, hi)
     if worst[0] > 2e-13:
         raise V("inexact", f"monomial exponents {worst[1]}: error {worst[0]:.3e}", t)
-    return Outcome(nontrivial=dim >= 2 or deg >= 3, key=t, evals=n)
+    return Outcome(nontrivial=dim >= 2 or deg >= 3, key=t, evals=n, labels=_labels(case))
 
 
 def check_tensor(case):
@@ -128,7 +189,7 @@ def check_tensor(case):
             raise V("corner-set", "corners are not {0,1}^dim", _tags(case))
         if not np.allclose(w, 0.5 ** case["dim"], rtol=0, atol=1e-15):
             raise V("corner-weights", f"{w}", _tags(case))
-        return Outcome(nontrivial=case["dim"] >= 2, key=_tags(case))
+        return Outcome(nontrivial=case["dim"] >= 2, key=_tags(case), labels=_labels(case))
     pts, w, lo, hi = _rule(case)
     t = _tags(case)
     dim = case["dim"]
@@ -153,8 +214,12 @@ def check_tensor(case):
             raise V("weight", f"point {p.tolist()}: weight {wt!r}, product rule {ref!r}", t)
     if len(seen) != n**dim:
         raise V("grid", f"{len(seen)} distinct tensor nodes, expected {n**dim}", t)
-    return Outcome(nontrivial=dim >= 2 and n >= 2, key=t)
+    return Outcome(nontrivial=dim >= 2 and n >= 2, key=t, labels=_labels(case))
 
+
+# ---------------------------------------------------------------------------------------
+# state between calls
+# ---------------------------------------------------------------------------------------
 
 def enum_sequences(tier):
     out = []
@@ -189,24 +254,94 @@ def check_repeatable(case):
         for arr in raw:
             if isinstance(arr, np.ndarray) and arr.flags.writeable:
                 arr *= 3.0
-    return Outcome(True, case)
+    return Outcome(True, case, labels=(f"dim{dim}", "order:max" if order == "max" else f"order:{order}"))
 
 
-def enum_reject(tier):
-    return [{"dim": d, "order": o} for d in (1, 2, 3) for o in REJECTED[d]] + [
-        {"dim": 4, "order": 0}, {"dim": 0, "order": 0}]
+# ---------------------------------------------------------------------------------------
+# which (dimension, order) pairs are rules at all
+# ---------------------------------------------------------------------------------------
+
+_PROBE_DIMS = (-1, 0, 1, 2, 3, 4, 5)
+_PROBE_ORDERS = tuple(range(-3, 13)) + ("max",)
 
 
-def check_reject(case):
-    for f in (Q.gauss, Q.gauss_reference_cell):
-        try:
-            f(case["dim"], case["order"])
+def enum_probe(tier):
+    out = []
+    for fn in ("gauss", "gauss_reference_cell"):
+        for dim in _PROBE_DIMS:
+            for order in _PROBE_ORDERS:
+                for form in ("int", "np", "kw"):
+                    out.append({"fn": fn, "dim": dim, "order": order, "form": form})
+    for dim in _PROBE_DIMS + (6,):
+        for form in ("int", "np", "kw"):
+            out.append({"fn": "reference_cell_corners", "dim": dim, "order": "corners", "form": form})
+    return out
+
+
+def check_probe(case):
+    """Every probe of the API - any dimension, any integer order, 'max', through every entry
+    point and call form - is either rejected with NotImplementedError or answered with a rule,
+    and what is answered obeys the whole property: n = order + 1 points per direction, as many
+    weights, positive, summing to the measure, exact to per-variable degree 2n-1 (corners:
+    multilinear).  The documented pairs must be answered; 'max' is the highest order answered."""
+    fn, dim, order, form = case["fn"], case["dim"], case["order"], case["form"]
+    cell = {"gauss": "sym", "gauss_reference_cell": "unit", "reference_cell_corners": "corners"}[fn]
+    t = {"dim": dim, "order": order, "cell": cell, "form": form}
+    documented = dim in ACCEPTED and (cell == "corners" or order in ACCEPTED[dim])
+    try:
+        ret = _call(fn, dim, None if cell == "corners" else order, form)
+    except TypeError:
+        if form != "kw":
+            raise
+        try:  # the documented parameter names (dim, order) are part of the call interface
+            _call(fn, dim, None if cell == "corners" else order, "int")
         except NotImplementedError:
-            continue
-        raise Violation("accepted", f"{f.__name__}({case['dim']},{case['order']}) did not raise",
-                        case)
-    return Outcome(nontrivial=True, key=case)
+            pass
+        raise Violation(f"call-form-keywords:{fn}", f"{fn} does not take its documented parameters "
+                        "(dim, order) by name", t)
+    except NotImplementedError:
+        if documented:
+            raise V("documented-rejected", f"{fn}({dim}, {order!r}) [{form}] raised NotImplementedError", t)
+        return Outcome(nontrivial=False, key=case, status="rejected", labels=("rejected", f"form:{form}", fn))
+    labels = ("answered", f"form:{form}", fn, "documented" if documented else "beyond-documented")
+    if dim < 1:
+        return Outcome(nontrivial=False, key=case, labels=labels)
+    pts, w = _normal(*_unpack(ret, t), dim)
+    lo, hi = (-1.0, 1.0) if cell == "sym" else (0.0, 1.0)
+    if cell == "corners":
+        n, deg = 2, 1
+    else:
+        if not isinstance(order, str) and order < 0:
+            raise V("negative-order", f"{fn}({dim}, {order}) answered with {len(pts)} points", t)
+        n = _npts(dim, order)
+        deg = 2 * n - 1
+    if pts.ndim != 2 or pts.shape[1] != dim:
+        raise V("point-width", f"points have shape {pts.shape} for dim {dim}", t)
+    if w.ndim != 1 or len(w) != len(pts):
+        raise V("count", f"{len(pts)} points but {w.shape} weights", t)
+    if len(pts) != n**dim:
+        raise V("count", f"{len(pts)} points, expected {n}^{dim} for order {order!r}", t)
+    if not np.all(w > 0):
+        raise V("nonpositive", f"weights not positive: {w}", t)
+    meas = (hi - lo) ** dim
+    if abs(w.sum() - meas) > 1e-13 * meas:
+        raise V("sum", f"weights sum to {w.sum()!r}, measure {meas}", t)
+    if np.any(pts < lo - 1e-15) or np.any(pts > hi + 1e-15):
+        raise V("outside", "points outside the cell", t)
+    worst, nev = _worst_monomial(pts, w, dim, deg, lo, hi)
+    if worst[0] > 2e-13:
+        raise V("inexact", f"monomial exponents {worst[1]}: error {worst[0]:.3e}", t)
+    # the call form is not part of the rule
+    ref = _call(fn, dim, None if cell == "corners" else order, "int")
+    rp, rw = _normal(*_unpack(ref, t), dim)
+    if not (np.array_equal(rp, pts) and np.array_equal(rw, w)):
+        raise V("call-form", f"{fn}({dim}, {order!r}) differs between call form {form} and plain ints", t)
+    return Outcome(nontrivial=True, key=case, evals=nev, labels=labels)
 
+
+# ---------------------------------------------------------------------------------------
+# consumer: transport density
+# ---------------------------------------------------------------------------------------
 
 def enum_consumer(tier):
     cases = []
@@ -254,25 +389,204 @@ def check_consumer(case):
         bad = np.argwhere(np.abs(dens - expect) > 1e-13)[0]
         raise V("consumer", f"density {dens[tuple(bad)]!r} vs {expect[tuple(bad)]!r} "
                         f"in cell {bad.tolist()}", t)
-    return Outcome(nontrivial=dim >= 2, key=case)
+    return Outcome(nontrivial=dim >= 2, key=case, labels=(f"dim{dim}", case["mode"]))
 
 
-_RULE = ("enumerate every (dimension, order, cell) rule the API offers; non-trivial = more than "
-         "one point (shape/sum), dim>=2 or degree>=3 (exactness), dim>=2 and >=2 points per "
-         "direction (tensor structure); distinct = (dim, order, cell)")
+_FLUX_SHAPES = {
+    "quick": {1: ([2], [3], [6]), 2: ([3, 2], [1, 3], [4, 3]), 3: ([2, 3, 2], [1, 2, 1], [3, 3, 3])},
+    "thorough": {1: ([2], [3], [6], [9]), 2: ([3, 2], [1, 3], [4, 3], [2, 5], [3, 1]),
+                 3: ([2, 3, 2], [1, 2, 1], [3, 3, 3], [2, 1, 4], [4, 3, 2])},
+}
+_FLUX_CLASSES = ("single-axis-one-sign", "single-axis-signed", "constant-vector", "general")
+_MODES = ("RAVIART_THOMAS", "CONSTANT_SUBCELL_PROJECTION", "CONSTANT_CELL_PROJECTION")
+
+
+def enum_flux(tier):
+    """Structure enumerated (dimension x shape x mode x flux class x repetitions); magnitude
+    class, voxel sizes, axis, sign and the payload seed are drawn from VERIF_SEED."""
+    seed = int(os.environ.get("VERIF_SEED", "1") or "1")
+    rng = np.random.default_rng([seed, 15])
+    reps = {"quick": 2, "thorough": 24}[tier]
+    out = []
+    for dim in (1, 2, 3):
+        for shape in _FLUX_SHAPES[tier][dim]:
+            for mode in _MODES:
+                for fclass in _FLUX_CLASSES:
+                    for _ in range(reps):
+                        out.append({
+                            "dim": dim, "shape": list(shape), "mode": mode, "fclass": fclass,
+                            "axis": int(rng.integers(0, dim)),
+                            "sign": int(rng.choice([-1, 1])),
+                            "scale_exp": int(rng.choice([0, 0, -30, -7, 9, 30])),
+                            "vox": [float(2.0 ** int(k)) for k in rng.integers(-3, 4, size=dim)]
+                            if rng.integers(0, 3) else [1.0] * dim,
+                            "pseed": int(rng.integers(0, 2**31 - 1)),
+                        })
+    return out
+
+
+def _flux_field(case, grid):
+    """Dyadic face values k/8 (|k| <= 32) times 2**scale_exp: every product with the weights of
+    the corner and mid-point rules is exact."""
+    rng = np.random.default_rng(case["pseed"])
+    flux = np.zeros(grid.num_faces)
+    fclass = case["fclass"]
+    scale = 2.0 ** case["scale_exp"]
+    if fclass == "single-axis-one-sign":
+        f = grid.faces[case["axis"]]
+        flux[f] = case["sign"] * rng.integers(0, 33, size=len(f)) / 8.0
+    elif fclass == "single-axis-signed":
+        f = grid.faces[case["axis"]]
+        flux[f] = rng.integers(-32, 33, size=len(f)) / 8.0
+    elif fclass == "constant-vector":
+        for a in range(grid.dim):
+            flux[grid.faces[a]] = int(rng.integers(-32, 33)) / 8.0
+    else:
+        flux[:] = rng.integers(-32, 33, size=grid.num_faces) / 8.0
+    return flux * scale
+
+
+def _face_values(grid, flux, shape):
+    """Independent RT0 bookkeeping from the connectivity table: for every cell and axis the normal
+    flux on its low and on its high face (0 on the boundary)."""
+    dim = len(shape)
+    lo = np.zeros((*shape, dim))
+    hi = np.zeros((*shape, dim))
+    for a in range(dim):
+        for f in grid.faces[a]:
+            c0, c1 = grid.connectivity[f]
+            i0 = tuple(int(i) for i in np.unravel_index(c0, shape, order="F"))
+            i1 = tuple(int(i) for i in np.unravel_index(c1, shape, order="F"))
+            if tuple(np.subtract(i1, i0)) != tuple(int(b == a) for b in range(dim)):
+                raise HarnessError(f"face {f} of axis {a} joins cells {i0} and {i1}")
+            hi[i0 + (a,)] = flux[f]
+            lo[i1 + (a,)] = flux[f]
+    return lo, hi
+
+
+def check_flux_laws(case):
+    """transport_density for arbitrary face fluxes (signed, all axes, any magnitude, any voxel
+    size), through every call form.  With v(x) the RT0 extension of the face values in a cell
+    (component a linear in x_a between the low- and the high-face value):
+      * CONSTANT_CELL_PROJECTION ('quadrature of order 0')  = |v(centre)|,
+      * CONSTANT_SUBCELL_PROJECTION ('quadrature over corners') = mean of |v| over the corners,
+      * RAVIART_THOMAS (a Gauss rule): |v| is convex, so any rule with positive weights summing
+        to one that is exact for multilinear functions lies between the two values above, and
+        equals them where |v| is itself (multi)linear: one non-zero component that does not
+        change sign in the cell, or a constant vector;
+      * the default call (weighted by the default unit weights, flattened) is the same field in
+        the grid's flat cell order; l1_dissipation is its integral (cell volume x density);
+      * asking twice gives the same answer and the flux array is left alone."""
+    from darsia.measure.wasserstein import L1Mode
+
+    dim, shape, mode = case["dim"], tuple(case["shape"]), case["mode"]
+    grid = darsia.Grid(shape=shape, voxel_size=[float(v) for v in case["vox"]])
+    w1 = darsia.WassersteinDistanceBregman(
+        grid, options={"l1_mode": getattr(L1Mode, mode), "num_iter": 1})
+    t = {"dim": dim, "mode": mode, "cell": "consumer", "order": "default", "fclass": case["fclass"]}
+    flux = _flux_field(case, grid)
+    keep = flux.copy()
+    amax = float(np.max(np.abs(flux))) if flux.size else 0.0
+    tol = 1e-13 * amax
+    lo, hi = _face_values(grid, flux, shape)
+
+    mid = np.sqrt(np.sum((0.5 * (lo + hi)) ** 2, axis=-1))
+    corner = np.zeros(shape)
+    for c in itertools.product((0, 1), repeat=dim):
+        v = np.where(np.array(c, dtype=bool), hi, lo)
+        corner += np.sqrt(np.sum(v**2, axis=-1))
+    corner *= 0.5**dim
+
+    dens = w1.transport_density(flux, weighted=False, flatten=False)
+    if not isinstance(dens, np.ndarray) or dens.shape != shape:
+        raise V("consumer-shape", f"density of shape {getattr(dens, 'shape', None)} on grid {shape}", t)
+
+    def worst(diff):
+        bad = np.unravel_index(int(np.argmax(diff)), shape)
+        return [int(i) for i in bad]
+
+    labels = [f"dim{dim}", mode, case["fclass"],
+              "scale:one" if case["scale_exp"] == 0 else "scale:tiny" if case["scale_exp"] < 0 else "scale:huge",
+              "vox:unit" if all(v == 1.0 for v in case["vox"]) else "vox:anisotropic"]
+    nev = int(np.prod(shape))
+    if mode == "CONSTANT_CELL_PROJECTION":
+        d = np.abs(dens - mid)
+        if np.any(d > tol):
+            b = worst(d)
+            raise V("consumer-midpoint", f"cell {b}: density {dens[tuple(b)]!r}, |v(centre)| = {mid[tuple(b)]!r}", t)
+        ref_lo = ref_hi = mid
+    elif mode == "CONSTANT_SUBCELL_PROJECTION":
+        d = np.abs(dens - corner)
+        if np.any(d > tol):
+            b = worst(d)
+            raise V("consumer-corners", f"cell {b}: density {dens[tuple(b)]!r}, corner mean {corner[tuple(b)]!r}", t)
+        ref_lo = ref_hi = corner
+    else:
+        d = np.maximum(mid - dens, dens - corner)
+        if np.any(d > tol):
+            b = worst(d)
+            raise V("consumer-gauss-bounds", f"cell {b}: density {dens[tuple(b)]!r} outside "
+                    f"[{mid[tuple(b)]!r}, {corner[tuple(b)]!r}] (centre value, corner mean)", t)
+        nz = (lo != 0) | (hi != 0)
+        linear = (nz.sum(axis=-1) <= 1) & np.all(lo * hi >= 0, axis=-1)
+        const = np.all(lo == hi, axis=-1)
+        exact = linear | const
+        if np.any(exact):
+            labels.append("gauss:cells-with-linear-integrand")
+            nev += int(exact.sum())
+            d = np.where(exact, np.abs(dens - corner), 0.0)  # corner mean is exact for (multi)linear |v|
+            if np.any(d > tol):
+                b = worst(d)
+                raise V("consumer-gauss-linear", f"cell {b}: density {dens[tuple(b)]!r}, exact integral "
+                        f"{corner[tuple(b)]!r} (face values low {lo[tuple(b)].tolist()}, high {hi[tuple(b)].tolist()})", t)
+        if not np.all(exact):
+            labels.append("gauss:cells-with-nonlinear-integrand")
+        ref_lo, ref_hi = mid, corner
+
+    # second request on the same object
+    again = w1.transport_density(flux, weighted=False, flatten=False)
+    if not np.array_equal(again, dens):
+        raise V("consumer-repeat", "the second request on the same object differs from the first", t)
+    # default call form: default (unit) weights, flattened in the grid's cell order
+    flat = w1.transport_density(flux)
+    want = np.ravel(dens, "F")
+    if not isinstance(flat, np.ndarray) or flat.shape != want.shape or not np.array_equal(flat, want):
+        raise V("consumer-default-call", f"transport_density(flux) is not the flattened (cell order) "
+                f"field of the explicit call: {np.asarray(flat).tolist()} vs {want.tolist()}", t)
+    vol = float(np.prod(case["vox"]))
+    diss = float(w1.l1_dissipation(flux))
+    ncell = int(np.prod(shape))
+    if not (vol * float(ref_lo.sum()) - vol * ncell * tol <= diss <= vol * float(ref_hi.sum()) + vol * ncell * tol):
+        raise V("consumer-dissipation", f"l1_dissipation {diss!r}, integral of the density in "
+                f"[{vol * float(ref_lo.sum())!r}, {vol * float(ref_hi.sum())!r}]", t)
+    if not np.array_equal(flux, keep):
+        raise V("consumer-mutates-flux", "the flux array passed in was modified", t)
+    nontrivial = amax > 0 and int(np.prod(shape)) > 1
+    return Outcome(nontrivial=nontrivial, key=case, labels=tuple(labels), evals=nev + 3)
+
+
+_RULE = ("enumerate every (dimension, order, cell) rule the API offers - the documented pairs and "
+         "whatever else a probe of dimensions -1..5 x orders -3..12, 'max' is answered with; "
+         "non-trivial = more than one point (shape/sum), dim>=2 or degree>=3 (exactness), dim>=2 "
+         "and >=2 points per direction (tensor structure), answered probes, non-zero flux fields "
+         "on more than one cell (consumer); distinct = (dim, order, cell[, call form])")
 
 PROP = Prop(
     pid="C15",
     rule=_RULE,
     assumptions=["analytic monomial integrals and numpy.polynomial.legendre.leggauss are the "
-                 "reference", "tolerance 2e-13 absolute on [-1,1]^d and the unit cell"],
+                 "reference", "tolerance 2e-13 absolute on [-1,1]^d and the unit cell",
+                 "consumer: RT0 face-value bookkeeping from Grid.connectivity; dyadic face fluxes; "
+                 "tolerance 1e-13 relative to the largest face flux"],
     subs=[
         Sub("shape_consistency", check_shape, enum=enum_rules, exhaustive=True, shards={"quick": 1, "thorough": 1}),
         Sub("positive_sum_to_measure", check_positive_sum, enum=enum_rules, exhaustive=True, shards={"quick": 1, "thorough": 1}),
         Sub("exact_to_degree", check_exact, enum=enum_rules, exhaustive=True, shards={"quick": 2, "thorough": 2}),
         Sub("tensor_structure", check_tensor, enum=enum_rules, exhaustive=True, shards={"quick": 1, "thorough": 1}),
         Sub("repeatable_across_calls", check_repeatable, enum=enum_sequences, exhaustive=True, shards={"quick": 1, "thorough": 1}),
-        Sub("unsupported_orders_raise", check_reject, enum=enum_reject, exhaustive=True, shards={"quick": 1, "thorough": 1}),
+        Sub("offered_or_rejected", check_probe, enum=enum_probe, exhaustive=True, shards={"quick": 2, "thorough": 2}),
         Sub("consumer", check_consumer, enum=enum_consumer, exhaustive=True, shards={"quick": 2, "thorough": 2}),
+        Sub("consumer_flux_laws", check_flux_laws, enum=enum_flux, exhaustive=False,
+            shards={"quick": 4, "thorough": 8}),
     ],
 )
